@@ -125,6 +125,17 @@ impl Prop for C02 {
         }
       }
     }
+    // comparison chains whose later comparison is an (in)equality with a BOOLEAN operand: a > b == t is (a > b) == t
+    let cmps = ["<", "<=", ">", ">=", "==", "!="];
+    for (ci, c1) in cmps.iter().enumerate() { for (ei, e1) in ["==", "!="].iter().enumerate() {
+      for r in 0..(if tier == Tier::Quick { 2 } else { 6 }) {
+        let mut lr = Rng::keyed(seed, &format!("c02cmp{}.{}.{}", ci, ei, r));
+        let (x, y) = (*lr.pick(&NUMS), *lr.pick(&NUMS)); let (t, u) = (*lr.pick(&BOOLS), *lr.pick(&BOOLS));
+        mk_case(&mut out, "len=2;strat=comparison-chain".into(), &format!("r{}", r), vec![opnd(x), opnd(y), opnd(t)], vec![s(c1), s(e1)], None);
+        mk_case(&mut out, "len=3;strat=comparison-chain".into(), &format!("r{}", r), vec![opnd(x), opnd(y), opnd(t), opnd(u)], vec![s(c1), s(e1), s(if r % 2 == 0 { "!=" } else { "==" })], None);
+        mk_case(&mut out, "len=3;strat=comparison-chain".into(), &format!("a{}", r), vec![opnd(x), opnd(y), opnd(*lr.pick(&NUMS)), opnd(t)], vec![s(*lr.pick(&["+", "-", "*"])), s(c1), s(e1)], None);
+      }
+    } }
     // length 4: sampled (quick) / exhaustive (thorough)
     let n4 = if tier == Tier::Quick { 1500 } else { 50625 };
     for i in 0..n4 {
